@@ -192,7 +192,10 @@ class Check:
         total_verdicts = max(1, self.evaluations)
         frac_inc = len(self.inconclusives) / total_verdicts
         run_inconclusive = None
-        if not unknown:
+        if not unknown and self.replay is not None:
+            if self.evaluations == 0:
+                run_inconclusive = "replayed case was not executed"
+        elif not unknown:
             if self.evaluations == 0:
                 run_inconclusive = "no case was executed"
             elif n_distinct < self.min_nontrivial:
@@ -246,7 +249,7 @@ class Check:
         except FileNotFoundError:
             pass
         except Exception as e:  # evidence that does not validate is no evidence
-            if not unknown and not run_inconclusive:
+            if not unknown and not run_inconclusive and self.replay is None:
                 run_inconclusive = f"evidence does not validate: {str(e)[:200]}"
                 cov["verdict"] = "inconclusive"
         if self.replay is None:
